@@ -10,6 +10,10 @@ def main() -> int:
     path = sys.argv[1]
     with open(path) as f:
         v = json.load(f)
+    from . import cfgvariant
+    cfgvariant.pre_import()
+    import tawazi  # noqa: F401
+    cfgvariant.post_import()
     mod = importlib.import_module(f"twzmc.checks.{v['property'].lower()}")
     print(f"replaying {v['property']} {v['kind']}: {v['msg']}")
     if v.get("source"):
